@@ -150,10 +150,10 @@ def replace_ref(text, oldvalue, newvalue="n/a"):
         else:
             c1 = match.group("c1")
             c2 = match.group("c2")
-            if c1:
+            if c1.strip():  # c1 has a comma: drop it and keep c2
                 c1 = ""
-            elif c2:
-                c2 = ""
+            else:  # nothing but blanks before the ref: drop them and the comma after
+                c1 = c2 = ""
             output = c1 + c2
 
         return output
